@@ -1008,3 +1008,204 @@ Fixpoint to_le (n : nat) (v : N) : bytes :=
   match n with O => [] | S k => v mod 256 :: to_le k (v / 256) end.
 Lemma to_le_length : forall n v, length (to_le n v) = n.
 Proof. induction n as [|n IH]; intro v; cbn [to_le length]; [reflexivity|rewrite IH; reflexivity]. Qed.
+
+(* ---------------------------------------------------------------------------------------- *)
+(* ledger transaction payloads                                                              *)
+(* ---------------------------------------------------------------------------------------- *)
+Lemma land_127_small : forall b, b < 128 -> N.land b 127 = b.
+Proof.
+  intros b Hb. change 127 with (N.ones 7). rewrite N.land_ones. apply N.mod_small. exact Hb.
+Qed.
+(* once a continuation byte has been read the decoded size is at least 128 *)
+Lemma read_size_aux_ge : forall f acc shift bs n r,
+  7 <= shift -> read_size_aux f acc shift bs = Ok (n, r) -> 128 <= n.
+Proof.
+  induction f as [|f IH]; intros acc shift bs n r Hs E; destruct bs as [|b rest]; cbn in E; try discriminate.
+  - destruct (N.ltb_spec b 128) as [Hb|Hb].
+    + destruct (N.eqb_spec b 0) as [->|Hb0]; destruct (N.eqb_spec shift 0) as [->|Hs0]; cbn in E; try discriminate; try lia.
+      inversion E; subst. rewrite (land_127_small b Hb).
+      rewrite N.shiftl_mul_pow2.
+      assert (2 ^ 7 <= 2 ^ shift) by (apply N.pow_le_mono_r; lia). change (2 ^ 7) with 128 in H. nia.
+    + destruct (28 <=? shift + 7); discriminate.
+  - destruct (N.ltb_spec b 128) as [Hb|Hb].
+    + destruct (N.eqb_spec b 0) as [->|Hb0]; destruct (N.eqb_spec shift 0) as [->|Hs0]; cbn in E; try discriminate; try lia.
+      inversion E; subst. rewrite (land_127_small b Hb).
+      rewrite N.shiftl_mul_pow2.
+      assert (2 ^ 7 <= 2 ^ shift) by (apply N.pow_le_mono_r; lia). change (2 ^ 7) with 128 in H. nia.
+    + destruct (28 <=? shift + 7); [discriminate|]. eapply IH; [|exact E]. lia.
+Qed.
+(* a size below 128 has exactly one accepted encoding: the single byte *)
+Lemma read_size_aux_small : forall f bs n r, read_size_aux (S f) 0 0 bs = Ok (n, r) -> n < 128 -> bs = n :: r.
+Proof.
+  intros f bs n r E Hn. destruct bs as [|b rest]; cbn in E; [discriminate|].
+  destruct (N.ltb_spec b 128) as [Hb|Hb].
+  - rewrite andb_false_r in E. inversion E; subst.
+    rewrite N.shiftl_0_r, (land_127_small b Hb). reflexivity.
+  - apply read_size_aux_ge in E; [lia|lia].
+Qed.
+Lemma read_size_small : forall bs n r, read_size bs = Ok (n, r) -> n < 128 -> bs = n :: r.
+Proof. intros bs n r E Hn. unfold read_size in E. eapply read_size_aux_small; eauto. Qed.
+Lemma read_any_enum_header_inv : forall bs d n r,
+  read_any_enum_header bs = Ok (d, n, r) -> n < 128 -> bs = VK_ENUM :: d :: n :: r.
+Proof.
+  intros bs d n r E Hn. unfold read_any_enum_header in E.
+  destruct bs as [|vk r1]; [discriminate|].
+  destruct (vk =? VK_ENUM) eqn:EV; cbn [negb] in E; [|discriminate]. apply N.eqb_eq in EV. subst vk.
+  destruct r1 as [|d' r2]; [discriminate|].
+  destruct (read_size r2) as [[n' r3]|e] eqn:RS; [|discriminate]. inversion E; subst.
+  rewrite (read_size_small _ _ _ RS Hn). reflexivity.
+Qed.
+Lemma read_enum_header_inv : forall disc nf bs body,
+  read_enum_header disc nf bs = Ok body -> nf < 128 -> bs = VK_ENUM :: disc :: nf :: body.
+Proof.
+  intros disc nf bs body E Hn. unfold read_enum_header in E.
+  destruct bs as [|vk r1]; [discriminate|].
+  destruct (vk =? VK_ENUM) eqn:EV; cbn [negb] in E; [|discriminate]. apply N.eqb_eq in EV. subst vk.
+  destruct r1 as [|d r2]; [discriminate|].
+  destruct (d =? disc) eqn:ED; cbn [negb] in E; [|discriminate]. apply N.eqb_eq in ED. subst d.
+  destruct (read_size r2) as [[n r3]|e] eqn:RS; [|discriminate].
+  destruct (n =? nf) eqn:EN; [|discriminate]. apply N.eqb_eq in EN. subst n. inversion E; subst.
+  rewrite (read_size_small _ _ _ RS Hn). reflexivity.
+Qed.
+Lemma check_length_inv : forall B n e (k : result B) x, check_length n e k = Ok x -> n = e /\ k = Ok x.
+Proof. intros B n e k x H. unfold check_length in H. destruct (N.eqb_spec n e); [auto|discriminate]. Qed.
+
+Section LedgerProofs.
+  Variable A : Type.
+  Variable decode_inner : ledger_variant -> bytes -> result (A * bytes).
+  Variable unknown : N -> perr.
+
+  Definition ledger_content_ok (v : ledger_variant) (a : option A) (body trailing : bytes) : Prop :=
+    match v with
+    | LGenesisFlash => a = None /\ body = trailing
+    | _ => exists x, a = Some x /\ decode_inner v body = Ok (x, trailing)
+    end.
+
+  Lemma nested_inv : forall v bs v' a tr,
+    nested A decode_inner v bs = Ok (v', a, tr) -> v' = v /\ exists x, a = Some x /\ decode_inner v bs = Ok (x, tr).
+  Proof.
+    intros v bs v' a tr E. unfold nested in E. destruct (decode_inner v bs) as [[x r]|e]; [|discriminate].
+    inversion E; subst. eauto.
+  Qed.
+
+  Lemma prepare_ledger_inner_inv : forall bs v a tr,
+    prepare_ledger_inner A decode_inner unknown bs = Ok (v, a, tr) ->
+    exists body, bs = skipn 4 (ledger_header v) ++ body /\ ledger_content_ok v a body tr.
+  Proof.
+    intros bs v a tr E. unfold prepare_ledger_inner in E.
+    destruct (read_any_enum_header bs) as [[[d n] r]|e] eqn:RH; [|discriminate].
+    assert (Hone : forall B (k : result B) x, check_length n 1 k = Ok x -> bs = VK_ENUM :: d :: 1 :: r /\ k = Ok x).
+    { intros B k x Hc. apply check_length_inv in Hc. destruct Hc as (-> & Hk). split; auto.
+      apply read_any_enum_header_inv; [exact RH|lia]. }
+    destruct (N.eqb_spec d 0) as [->|D0].
+    { apply Hone in E. destruct E as (-> & E).
+      destruct (read_any_enum_header r) as [[[g m] r2]|e] eqn:RG; [|discriminate].
+      destruct (N.eqb_spec g 0) as [->|G0].
+      - apply check_length_inv in E. destruct E as (-> & E). inversion E; subst.
+        rewrite (read_any_enum_header_inv _ _ _ _ RG) by lia.
+        exists tr. split; [reflexivity|]. cbn. auto.
+      - destruct (N.eqb_spec g 1) as [->|G1]; [|discriminate].
+        apply check_length_inv in E. destruct E as (-> & E).
+        apply nested_inv in E. destruct E as (-> & x & -> & Hd).
+        rewrite (read_any_enum_header_inv _ _ _ _ RG) by lia.
+        exists r2. split; [reflexivity|]. cbn. eauto. }
+    destruct (N.eqb_spec d 1) as [->|D1].
+    { apply Hone in E. destruct E as (-> & E). apply nested_inv in E. destruct E as (-> & x & -> & Hd).
+      exists r. split; [reflexivity|]. cbn. eauto. }
+    destruct (N.eqb_spec d 2) as [->|D2].
+    { apply Hone in E. destruct E as (-> & E). apply nested_inv in E. destruct E as (-> & x & -> & Hd).
+      exists r. split; [reflexivity|]. cbn. eauto. }
+    destruct (N.eqb_spec d 3) as [->|D3].
+    { apply Hone in E. destruct E as (-> & E). apply nested_inv in E. destruct E as (-> & x & -> & Hd).
+      exists r. split; [reflexivity|]. cbn. eauto. }
+    destruct (N.eqb_spec d 4) as [->|D4]; [|discriminate].
+    apply Hone in E. destruct E as (-> & E). apply nested_inv in E. destruct E as (-> & x & -> & Hd).
+    exists r. split; [reflexivity|]. cbn. eauto.
+  Qed.
+
+  (* an accepted ledger payload is, byte for byte, the header determined by its variant followed by the
+     nested transaction, which its decoder consumes completely; and it is within the ledger size limit *)
+  Theorem prepare_ledger_accept_inv : forall s payload v a,
+    prepare_ledger A decode_inner unknown s payload = Ok (v, a) ->
+    N.of_nat (length payload) <= max_ledger_payload_length s /\
+    exists body, payload = ledger_header v ++ body /\ ledger_content_ok v a body [].
+  Proof.
+    intros s payload v a E. unfold prepare_ledger in E.
+    destruct (check_len s LedgerTransaction (N.of_nat (length payload))) eqn:CL; cbn [negb] in E; [|discriminate].
+    split; [apply N.leb_le; exact CL|].
+    destruct payload as [|p rest]; [discriminate|].
+    destruct (p =? MANIFEST_SBOR_V1_PAYLOAD_PREFIX) eqn:EP; cbn [negb] in E; [|discriminate].
+    apply N.eqb_eq in EP. subst p.
+    destruct (read_enum_header D_LEDGER 1 rest) as [body0|e] eqn:RH; [|discriminate].
+    apply read_enum_header_inv in RH; [|lia]. subst rest.
+    destruct (prepare_ledger_inner A decode_inner unknown body0) as [[[v' a'] tr]|e] eqn:PI; [|discriminate].
+    destruct tr as [|t tr]; [|discriminate]. inversion E; subst.
+    destruct (prepare_ledger_inner_inv _ _ _ _ PI) as (body & Hb & Hc).
+    exists body. split; [|exact Hc].
+    rewrite Hb. destruct v; reflexivity.
+  Qed.
+End LedgerProofs.
+
+Section LedgerCorollaries.
+  Variable A : Type.
+  Variable decode_inner : ledger_variant -> bytes -> result (A * bytes).
+  Variable unknown : N -> perr.
+
+  Lemma ledger_noncanonical_rejected : forall s payload,
+    (forall v body, payload <> ledger_header v ++ body) ->
+    rejected (prepare_ledger A decode_inner unknown s payload).
+  Proof.
+    intros s payload Hn. destruct (prepare_ledger A decode_inner unknown s payload) as [[v a]|e] eqn:E.
+    - exfalso. destruct (prepare_ledger_accept_inv A decode_inner unknown s payload v a E) as (_ & body & Hb & _).
+      apply (Hn v body Hb).
+    - eexists; reflexivity.
+  Qed.
+  (* the two size bytes of the ledger envelope (offsets 3 and 6) are exactly 1 in every accepted payload *)
+  Lemma ledger_size_bytes : forall s payload v a,
+    prepare_ledger A decode_inner unknown s payload = Ok (v, a) ->
+    nth 3 payload 0 = 1 /\ nth 6 payload 0 = 1 /\ nth 0 payload 0 = MANIFEST_SBOR_V1_PAYLOAD_PREFIX /\
+    nth 1 payload 0 = VK_ENUM /\ nth 2 payload 0 = D_LEDGER /\ nth 4 payload 0 = VK_ENUM.
+  Proof.
+    intros s payload v a E.
+    destruct (prepare_ledger_accept_inv A decode_inner unknown s payload v a E) as (_ & body & -> & _).
+    destruct v; cbn; repeat split; reflexivity.
+  Qed.
+  Lemma ledger_too_large_rejected : forall s payload,
+    max_ledger_payload_length s < N.of_nat (length payload) ->
+    prepare_ledger A decode_inner unknown s payload = Err ETransactionTooLarge.
+  Proof.
+    intros s payload Hl. unfold prepare_ledger, check_len.
+    destruct (N.leb_spec (N.of_nat (length payload)) (max_ledger_payload_length s)); [lia|reflexivity].
+  Qed.
+  (* two accepted payloads with the same variant and the same nested transaction bytes are the same bytes *)
+  Lemma ledger_accepted_unique : forall s p1 p2 v a1 a2 body,
+    prepare_ledger A decode_inner unknown s p1 = Ok (v, a1) ->
+    prepare_ledger A decode_inner unknown s p2 = Ok (v, a2) ->
+    skipn (length (ledger_header v)) p1 = body -> skipn (length (ledger_header v)) p2 = body -> p1 = p2.
+  Proof.
+    intros s p1 p2 v a1 a2 body E1 E2 B1 B2.
+    destruct (prepare_ledger_accept_inv A decode_inner unknown s p1 v a1 E1) as (_ & b1 & -> & _).
+    destruct (prepare_ledger_accept_inv A decode_inner unknown s p2 v a2 E2) as (_ & b2 & -> & _).
+    rewrite skipn_app, skipn_all, Nat.sub_diag in B1, B2. cbn in B1, B2. congruence.
+  Qed.
+End LedgerCorollaries.
+
+Lemma ledger_hash_input_inj : forall k i k' i',
+  ledger_hash_input k i = ledger_hash_input k' i' -> k = k' /\ i = i'.
+Proof. intros k i k' i' E. unfold ledger_hash_input in E. cbn in E. inversion E. auto. Qed.
+Lemma ledger_hash_sensitivity : forall (H : bytes -> bytes) v i v' i',
+  CollisionFreeOn H [ledger_hash_input (ledger_kind_for_hash v) i; ledger_hash_input (ledger_kind_for_hash v') i'] ->
+  (ledger_hash H v i = ledger_hash H v' i' <-> ledger_kind_for_hash v = ledger_kind_for_hash v' /\ i = i').
+Proof.
+  intros H v i v' i' CF. unfold ledger_hash. split.
+  - intro E. apply ledger_hash_input_inj. apply CF; cbn; auto.
+  - intros (-> & ->). reflexivity.
+Qed.
+Lemma payload_part_kind_not_ledger : forall p, is_payload_part p = true -> part_kind p <> D_LEDGER.
+Proof. intros p P. destruct p; cbn in *; try discriminate; intro E; vm_compute in E; discriminate. Qed.
+Lemma ledger_input_not_payload_part : forall (H : bytes -> bytes) p k i,
+  is_payload_part p = true -> part_input H p <> ledger_hash_input k i.
+Proof.
+  intros H p k i P E. destruct (payload_part_input_starts H p P) as (rest & R). rewrite R in E.
+  unfold ledger_hash_input in E. cbn in E. injection E as K _. apply (payload_part_kind_not_ledger p P K).
+Qed.
